@@ -23,7 +23,8 @@ func init() {
 	})
 	register("C14", &propDef{
 		Title: "The builder does each piece of work once and always terminates",
-		Rules: []func(*Checker){ruleC14Memo, ruleC14Trace, ruleC14Queue},
+		Rules: []func(*Checker){ruleC14Memo, ruleC14Trace, ruleC14Queue,
+			aliasRuleFiltered(ruleC06CanonURL, "C06.canonurl", "C14.canonkey", 1, func(o Oblig) bool { return strings.Contains(o.Key, "canonical") })},
 		NotDecided: []string{
 			"termination in general (needs a ranking argument over the world); the analysed-set store is the structural necessary condition checked",
 			"'exactly once' across failures",
@@ -308,6 +309,11 @@ func sortedAfter(p *Prog, mr mapRange, ap *ssa.Call) bool {
 			return len(cl.Call.Args) > 0 && isSame(cl.Call.Args[0])
 		}
 		if o != nil && o.Name() == "Sort" && len(cl.Call.Args) > 0 {
+			// versions.List.Sort orders by precedence only: versions that differ in build metadata
+			// alone keep the order they were appended in, i.e. map order — not a total order
+			if recvTypeName(o) == "List" && strings.HasSuffix(objPkgPath(o), "go-versions/versions") {
+				return false
+			}
 			return isSame(cl.Call.Args[0])
 		}
 		return false
